@@ -76,9 +76,10 @@ Logged ==
   \/ IsEvent("h.kill") /\ Kill(Ev.p)
   \/ IsEvent("h.note") /\ Stutter
   (* the harness has waited for everything to settle: a waiting job whose request fits must have been told *)
-  \/ IsEvent("h.quiescent") /\ Stutter
-        /\ \A j \in Jobs : (jobst[j] = "submitted" /\ alive[Owner[j]] /\ Req[j] <= Total - Sum(Holders)) => dstat[j] = "OK"
-        /\ \A k \in Jobs : (jobst[k] \in {"released", "ended"} \/ (jobst[k] = "holding" /\ ~alive[Owner[k]])) => files[k] = "absent"
+  \/ /\ IsEvent("h.quiescent") /\ Stutter
+     /\ \A j \in Jobs : ((jobst[j] = "submitted" /\ alive[Owner[j]] /\ Req[j] <= Total - Sum(Holders)) => dstat[j] = "OK")
+     (* ... and what a finished job (or a job that never started because its scheduler died) held has come back *)
+     /\ \A k \in Jobs : ((jobst[k] \in {"released", "ended"} \/ (jobst[k] = "holding" /\ ~alive[Owner[k]])) => files[k] = "absent")
 
 TraceNext == Logged
 
